@@ -31,6 +31,7 @@ import (
 	"bytes"
 	"encoding/json"
 	"fmt"
+	"io"
 	"net/http"
 	"net/http/httptest"
 	"sort"
@@ -54,16 +55,27 @@ import (
 //	codec+compression  expected the other codec and gzip            (2 aspects)
 //	many               expected HTTP/1.1, json, gzip, TLS           (4 aspects)
 //	trailers           matches, but the body ends with HTTP trailers (reported AFTER the inner handler ran)
+//
+// Block says where the INNER handler (the RPC) of the request is held up - a
+// scheduling point of its own, so that other requests arrive, are checked and
+// finish while this one is "inside its RPC":
+//
+//	""            the inner handler returns at once
+//	entry         a scheduling point when the inner handler is entered (body unread)
+//	body          the inner handler reads the body to EOF (HTTP/2-style trailers become visible), then a scheduling point
+//	entry+body    both
 type c12ConcReq struct {
-	Name string `json:"name"`
-	Kind string `json:"kind"`
+	Name  string `json:"name"`
+	Kind  string `json:"kind"`
+	Block string `json:"block,omitempty"`
 }
 
 type c12ConcScenario struct {
 	Protocol   int          `json:"protocol"`
 	Reqs       []c12ConcReq `json:"reqs"`
-	WriterGate bool         `json:"writer_gate,omitempty"` // every Write to the server's stderr is a scheduling point
-	Bound      int          `json:"bound,omitempty"`       // preemption bound + 1 (0: unbounded)
+	WriterGate bool         `json:"writer_gate,omitempty"`  // every Write to the server's stderr is a scheduling point
+	Arrival    bool         `json:"arrival_gate,omitempty"` // the arrival of every request at the middleware is a scheduling point (requests do not all start their checks together: one may arrive while another is in any phase - checked, inside its RPC, finished)
+	Bound      int          `json:"bound,omitempty"`        // preemption bound + 1 (0: unbounded)
 }
 
 func c12ConcFullName(letter string) string { return "C12 Suite/concurrent/" + letter }
@@ -84,6 +96,8 @@ func c12ConcBuild(sc c12ConcScenario, i int) (*http.Request, c12Side, c12Actual)
 		exp.Version, exp.Codec, exp.Compression, exp.TLS = 1, 2, 2, true
 	case "trailers":
 		opts.trailers = "eof"
+	case "trailers-declared":
+		opts.trailers = "declared" // HTTP/1.1 style: the key is announced in the header block, the value arrives at EOF
 	default:
 		panic("c12ConcBuild: unknown kind " + rq.Kind)
 	}
@@ -114,13 +128,29 @@ func (w *c12ConcWriter) Write(p []byte) (int, error) {
 	return w.buf.Write(p)
 }
 
-type c12ConcInner struct{ calls []int }
+type c12ConcInner struct {
+	calls []int
+	block []string // per request: where the RPC is held up (c12ConcReq.Block)
+}
 
 func (in *c12ConcInner) ServeHTTP(_ http.ResponseWriter, req *http.Request) {
-	if id, err := strconv.Atoi(req.Header.Get("X-C12-Request-Id")); err == nil && id >= 0 && id < len(in.calls) {
-		in.calls[id]++
+	id, err := strconv.Atoi(req.Header.Get("X-C12-Request-Id"))
+	if err != nil || id < 0 || id >= len(in.calls) {
+		return
 	}
-	// the body is left to the middleware (it drains it afterwards "to look for trailers")
+	in.calls[id]++
+	// without a block the body is left to the middleware (it drains it afterwards "to look for trailers")
+	switch in.block[id] {
+	case "entry":
+		gate.PointAt("rpc.entry")
+	case "body":
+		_, _ = io.Copy(io.Discard, req.Body)
+		gate.PointAt("rpc.after-body")
+	case "entry+body":
+		gate.PointAt("rpc.entry")
+		_, _ = io.Copy(io.Discard, req.Body)
+		gate.PointAt("rpc.after-body")
+	}
 }
 
 type c12ConcResult struct {
@@ -140,7 +170,10 @@ func c12ConcRun(sc c12ConcScenario, order []int, spawn func(name string, f func(
 	n := len(sc.Reqs)
 	w := &c12ConcWriter{gated: sc.WriterGate && spawn != nil}
 	res := &c12ConcResult{Finished: make([]bool, n), Panics: make([]string, n), w: w}
-	inner := &c12ConcInner{calls: make([]int, n)}
+	inner := &c12ConcInner{calls: make([]int, n), block: make([]string, n)}
+	for i, rq := range sc.Reqs {
+		inner.block[i] = rq.Block
+	}
 	handler := referenceServerChecks(inner, internal.NewPrinter(w))
 	reqs := make([]*http.Request, n)
 	for i := range sc.Reqs {
@@ -153,6 +186,9 @@ func c12ConcRun(sc c12ConcScenario, order []int, spawn func(name string, f func(
 			}
 			res.Finished[i] = true
 		}()
+		if sc.Arrival && spawn != nil {
+			gate.PointAt("arrival")
+		}
 		handler.ServeHTTP(httptest.NewRecorder(), reqs[i])
 	}
 	for _, i := range order {
@@ -299,7 +335,7 @@ func c12ConcJudge(sc c12ConcScenario, res *c12ConcResult, parked []string, seque
 			i := group[l][0]
 			_, exp, act := c12ConcBuild(sc, i)
 			var jr c12Result
-			if sc.Reqs[i].Kind == "trailers" {
+			if strings.HasPrefix(sc.Reqs[i].Kind, "trailers") {
 				for _, line := range byName[l] {
 					if !strings.Contains(strings.ToLower(strings.TrimPrefix(line, full+": ")), "trailer") {
 						jr.fail("false-feedback:trailers:concurrent", "request deviates only by carrying trailers, but got line %q", line)
@@ -349,6 +385,15 @@ func c12ConcNamings(k int) []string {
 	}
 	rec(nil, 'a'-1)
 	return out
+}
+
+// c12ConcStaggered: sc with the arrival gate and the given RPC block places.
+func c12ConcStaggered(sc c12ConcScenario, blocks []string) c12ConcScenario {
+	sc.Arrival = true
+	for i := range blocks {
+		sc.Reqs[i].Block = blocks[i]
+	}
+	return sc
 }
 
 // c12ConcScenarios, simplest first.
@@ -413,6 +458,66 @@ func c12ConcScenarios(thorough bool) []c12ConcScenario {
 		// three requests with the slow writer: one deviating aspect each
 		for _, naming := range c12ConcNamings(3) {
 			out = append(out, mk(p, naming, []string{"codec", "codec", "codec"}, true, 0))
+		}
+		// requests that arrive while others are inside their RPC: the arrival of every request is a
+		// scheduling point of its own and the inner handler may be held up (Block), so a request can be
+		// checked from start to end - or only start - while another one sits in its RPC and still owes
+		// its after-the-handler feedback (trailers). Axes: which requests carry trailers (eof-style /
+		// declared) or deviate x where each RPC blocks x names x every interleaving.
+		// K=2: every kind pair x every block pair x same / different name
+		kinds2 := []string{"ok", "codec", "trailers", "trailers-declared"}
+		blocks2 := []string{"", "entry", "body"}
+		if thorough && p == c12Connect { // the middleware's concurrency does not depend on the protocol: the large programs once
+			blocks2 = append(blocks2, "entry+body")
+		}
+		for _, naming := range c12ConcNamings(2) {
+			product(kinds2, 2, func(kinds []string) {
+				product(blocks2, 2, func(blocks []string) {
+					out = append(out, c12ConcStaggered(mk(p, naming, kinds, false, 0), blocks))
+				})
+			})
+		}
+		// K=3. quick: one request carries trailers (each position) and is held up at entry / after the body,
+		// the two others match and return at once, or are held up at entry as well; namings abc, aba, aab.
+		// thorough (Connect; the other protocols: K=2 only): every naming x every non-empty set of trailer carriers x
+		// block place of the carriers x the others returning at once / held up at entry, under preemption bound 2
+		if !thorough {
+			for _, naming := range []string{"abc", "aba", "aab"} {
+				for pos := 0; pos < 3; pos++ {
+					for _, b := range []string{"entry", "body"} {
+						for _, ob := range []string{"", "entry"} {
+							kinds, blocks := []string{"ok", "ok", "ok"}, []string{ob, ob, ob}
+							kinds[pos], blocks[pos] = "trailers", b
+							if ob != "" {
+								blocks[(pos+2)%3] = "" // one of the others returns at once
+								if naming != "abc" {
+									continue
+								}
+							}
+							out = append(out, c12ConcStaggered(mk(p, naming, kinds, false, 0), blocks))
+						}
+					}
+				}
+			}
+		} else if p == c12Connect {
+			for _, naming := range c12ConcNamings(3) {
+				for set := 1; set < 8; set++ {
+					for _, b := range []string{"entry", "body"} {
+						for _, ob := range []string{"", "entry"} {
+							kinds, blocks := []string{"ok", "ok", "ok"}, []string{ob, ob, ob}
+							for pos := 0; pos < 3; pos++ {
+								if set&(1<<pos) != 0 {
+									kinds[pos], blocks[pos] = "trailers", b
+								}
+							}
+							if set == 7 && ob != "" {
+								continue
+							}
+							out = append(out, c12ConcStaggered(mk(p, naming, kinds, false, 3), blocks))
+						}
+					}
+				}
+			}
 		}
 		// four requests, lock granularity. quick: four different tests with one deviating aspect each,
 		// and bare repeats (aabb, aaaa); thorough: every naming with one deviating aspect each, a mixed
